@@ -240,6 +240,11 @@ class _ReadSourceGenerator:
                 current_offset += size
                 bits_rollover = False
 
+            if issubclass(element_type, Structure) and not field.bits:
+                # A nested structure reads itself and does not have to end where its declared size says (an aligned
+                # structure that starts at an unaligned offset pads on the stream position), so seek to the next field
+                current_offset = None
+
         yield from flush()
 
         if self.align:
